@@ -573,7 +573,31 @@ def wire_history(cfg, ops):
     return proto.line(Atom('C15'), Atom('hist'), cfg['cap'], B(cfg['auto_reload']), B(cfg['callback']), path, wops)
 
 
-def real_answer(run, kind, val):
+def uptodate_view(run, seen):
+    """`_uptodate` over the keys requested so far: None, or (file, logical mtime) read from the
+    closure of the up-to-date function"""
+    from harness.proto import Atom, B, N
+    byk = dict((run.key_of(k), v) for k, v in run.loader._uptodate.items())
+    out = []
+    for key in seen:
+        if key not in byk:
+            continue
+        fn = byk[key]
+        kw = [N if key[0] is None else key[0], B(key[1]), key[2]]
+        if fn is None:
+            out.append([kw, N])
+            continue
+        # by type, not by name: the closure holds one path (str) and one mtime (number)
+        vals = [c.cell_contents for c in (fn.__closure__ or ())]
+        paths = [v for v in vals if isinstance(v, str)]
+        nums = [v for v in vals if isinstance(v, (int, float)) and not isinstance(v, bool)]
+        loc = (run.loc_of_path(paths[0]) if paths else None) or (-1, False, -1)
+        m = (int(nums[0]) - T0) if nums else -1
+        out.append([kw, [loc[0], B(loc[1]), loc[2], m]])
+    return out
+
+
+def real_answer(run, kind, val, seen=()):
     """what the real loader did for one load, in the vocabulary of Driver/C15.lean histRun"""
     from harness.proto import Atom, B, N
     snap = run.snapshot()
@@ -585,4 +609,4 @@ def real_answer(run, kind, val):
         res = [Atom('err'), Atom(val)]
     cache = [[[N if k[0] is None else k[0], B(k[1]), k[2]], o]
              for k, o in [(k or (-1, False, -1), o) for k, o in snap['order']]]
-    return [res, [cache, len(run.cb_log), len(run.inst_log), run.lock_depth()]]
+    return [res, [cache, len(run.cb_log), len(run.inst_log), run.lock_depth(), uptodate_view(run, seen)]]
